@@ -272,6 +272,13 @@ class C12(Check):
                 # a literal `get nil` is flagged at compile time; that is the defined failure, reported early
                 if not ok and failure.kind == "nil":
                     return {"outcome": "static-get-nil", "nontrivial": True, "tags": ["static-get-nil"]}
+            if case[3] in MINPAREN_CONSTRUCTS:
+                # differential: the same program with every operand parenthesised
+                res_full = driver.run_ms(refint.program(ast))
+                if not driver.compile_rejected(res_full):
+                    bad("grouping", "the compiler accepts the program when `(x) or y` is wrapped in parentheses and rejects it when it stands as a bare right operand: "
+                                    "the operator is applied to the optional itself, not to the value of `(x) or y`: " + res.out[-200:])
+                    return {"outcome": "rejected-DIFF", "viol": viol, "nontrivial": True, "tags": [f"c-{case[3]}"]}
             return {"outcome": "rejected", "nontrivial": False, "tags": ["rejected", f"rej-{case[1]}-{case[3]}"],
                     "show": (res.out[-200:])}
         if res.cls in ("panic", "abort", "timeout") and "compiler/src" in res.err:
